@@ -1128,6 +1128,14 @@ fn samples(a: &Acc, s: Option<&Row>) -> Vec<String> {
         "HashMap<String,String>" => vec![l(&["A=1"]), l(&["A=1", "B=x=y"])],
         _ => vec![],
     };
+    // the empty list, where the getter is built on split_whitespace(): an empty field reads as []
+    // (Props/C15More C15_codec_list_empty_ok).  Comma lists and the Copyright lines read [""] for
+    // the empty field (C15_codec_list_empty): the empty list is outside the domain of those codecs
+    // (a comma list has at least one element), the oracle "getter returns the value set" cannot
+    // judge it, so it is not generated there.
+    if base == "Vec<String>" && rows_of(a).0.map(|g| g.sep == "ws").unwrap_or(false) {
+        out.push(l(&[]));
+    }
     // keep only values the wire type accepts, in canonical form
     if let Some(c) = a.canon {
         out = out.iter().filter_map(|v| c(v)).collect();
@@ -1451,6 +1459,11 @@ fn handle_inner(op: &str, a: &[&str]) -> Option<Resp> {
             let twice = c.to_string();
             let after = parse_items(&once);
             let keep = |p: &Items| -> Items { p.iter().filter(|f| f.0 != "Format" && f.0 != "Format-Specification").cloned().collect() };
+            // a legal header has ONE format field, under its current name (DEP-5) or its pre-1.0 name
+            // Format-Specification.  Both names together, or one of them twice, is not a legal file:
+            // there fix() leaves two Format fields / a Format-Specification behind (Props/C15More
+            // C15_fix_both, an observation, not a finding) and only the frame clauses are judged.
+            let legal = before.first().map(|p| p.iter().filter(|f| f.0 == "Format" || f.0 == "Format-Specification").count() == 1).unwrap_or(false);
             let fail = match after {
                 None => Some("printed text does not re-parse".to_string()),
                 Some(a) => {
@@ -1458,16 +1471,18 @@ fn handle_inner(op: &str, a: &[&str]) -> Option<Resp> {
                         Some("another paragraph changed".to_string())
                     } else if keep(&a[0]) != keep(&before[0]) {
                         Some("other header fields changed".to_string())
+                    } else if comment_lines(&text) != comment_lines(&once) {
+                        Some("comment lines changed".to_string())
+                    } else if fmt.as_deref().map(|f| !f.ends_with('/') || f.starts_with("http:")).unwrap_or(true) {
+                        Some(format!("format string after fix: {:?}", fmt))
+                    } else if !legal {
+                        None
                     } else if has(&a[0], "Format-Specification") {
                         Some("Format-Specification left behind".to_string())
                     } else if a[0].iter().filter(|f| f.0 == "Format").count() != 1 {
                         Some("not exactly one Format field".to_string())
-                    } else if fmt.as_deref().map(|f| !f.ends_with('/') || f.starts_with("http:")).unwrap_or(true) {
-                        Some(format!("format string after fix: {:?}", fmt))
                     } else if once != twice {
                         Some("fix is not idempotent".to_string())
-                    } else if comment_lines(&text) != comment_lines(&once) {
-                        Some("comment lines changed".to_string())
                     } else {
                         None
                     }
@@ -1768,6 +1783,15 @@ pub fn generate_c15(tier: &str, seed: u64, out: &mut Out) {
         "Format: http://www.debian.org/doc/packaging-manuals/copyright-format/1.0\nSource: s\n",
         "Format: https://www.debian.org/doc/packaging-manuals/copyright-format/1.0/\n",
         "Format: http://example.com/other\n# c\nSource: s\n\nFiles: *\nCopyright: c\nLicense: MIT\n",
+        // the rename branch of fix(): reachable through Copyright::from_str only together with a
+        // Format field (the text must start with `Format:`) — not a legal DEP-5 header
+        "Format: http://a/b\nFormat-Specification: http://c/d\nSource: s\n",
+        "Format: x\nFormat-Specification: a\nFormat-Specification: b\n",
+        "Format: x\nSource: s\nFormat-Specification: a\n\nFiles: *\nCopyright: c\nLicense: MIT\n",
+        "Format: a\n# c\nFormat-Specification: b\n",
+        "Format: x\nFormat: y\n",
+        // the old name alone: rejected by from_str (NotMachineReadable), answer bad-doc
+        "Format-Specification: http://c/d\nSource: s\n",
     ] {
         out.req("acc.cpr.fix", &[es(d)]);
     }
